@@ -1,1 +1,225 @@
 // Kani harnesses compiled inside rs-matter/src/utils/codec/base38.rs (module `verif_kani`).
+
+mod c17 {
+    use super::*;
+
+    /// Value of an alphabet character, `None` outside the alphabet.
+    fn alpha_val(c: u8) -> Option<u8> {
+        match c {
+            b'0'..=b'9' => Some(c - b'0'),
+            b'A'..=b'Z' => Some(c - b'A' + 10),
+            b'-' => Some(36),
+            b'.' => Some(37),
+            _ => None,
+        }
+    }
+
+    /// Number of characters of a group of `n` bytes / bytes of a group of `n` characters.
+    fn chars_of(n: usize) -> usize {
+        match n {
+            3 => 5,
+            2 => 4,
+            1 => 2,
+            _ => 0,
+        }
+    }
+
+    fn bytes_of(n: usize) -> Option<usize> {
+        match n {
+            5 => Some(3),
+            4 => Some(2),
+            2 => Some(1),
+            0 => Some(0),
+            _ => None,
+        }
+    }
+
+    const POW38: [u32; 5] = [1, 38, 38 * 38, 38 * 38 * 38, 38 * 38 * 38 * 38];
+
+    // TIER: quick
+    // KIND: complete
+    #[kani::proof]
+    fn c17_base38_decode_char() {
+        let c: u8 = kani::any();
+        match decode_char(c) {
+            Ok(v) => kani::assert(alpha_val(c) == Some(v), "C17.base38.char.value_of_alphabet_char"),
+            Err(e) => {
+                kani::assert(alpha_val(c).is_none(), "C17.base38.char.err_only_outside_alphabet");
+                kani::assert(e.code() == ErrorCode::InvalidData, "C17.base38.char.err_is_invalid_data");
+            }
+        }
+        // and the encoder's table is the inverse of the alphabet
+        let v: u8 = kani::any();
+        kani::assume(v < 38);
+        kani::assert(alpha_val(BASE38_CHARS[v as usize] as u8) == Some(v), "C17.base38.char.table_is_alphabet");
+        kani::cover!(c == b'.', "dot");
+        kani::cover!(c == b'/', "slash is not in the alphabet");
+        kani::cover!(c > 127, "non-ASCII byte");
+    }
+
+    /// Digits (alphabet values) of `m` characters, `None` if one is outside the alphabet, and their
+    /// value read least significant digit first - multiplications only, no division.
+    fn digits_value(chars: &[u8; 5], m: usize) -> Option<u32> {
+        let mut v = 0u32;
+        let mut k = 0;
+        while k < m {
+            match alpha_val(chars[k]) {
+                Some(d) => v += d as u32 * POW38[k],
+                None => return None,
+            }
+            k += 1;
+        }
+        Some(v)
+    }
+
+    /// One group of `n` bytes (all 2^(8n) values): the characters are alphabet characters whose
+    /// base-38 value, least significant digit first, is the little-endian value of the bytes,
+    /// and they decode to the same bytes.
+    fn group_roundtrip(n: usize) {
+        let b: [u8; 3] = kani::any();
+        let mut chars = [b'0'; 5];
+        let mut m = 0;
+        for c in encode(&b[..n]) {
+            if m < 5 {
+                chars[m] = c as u8;
+            }
+            m += 1;
+        }
+        kani::assert(m == chars_of(n), "C17.base38.encode.group_char_count");
+
+        let mut v: u32 = 0;
+        let mut i = 0;
+        while i < n {
+            v |= (b[i] as u32) << (8 * i);
+            i += 1;
+        }
+        kani::assert(
+            digits_value(&chars, chars_of(n)) == Some(v),
+            "C17.base38.encode.digits_least_significant_first"
+        );
+
+        // SAFETY: `chars` holds ASCII characters only
+        let s = unsafe { core::str::from_utf8_unchecked(&chars[..chars_of(n)]) };
+        let mut out = [0u8; 3];
+        let mut q = 0;
+        let mut errors = 0;
+        for r in decode(s) {
+            match r {
+                Ok(x) => {
+                    if q < 3 {
+                        out[q] = x;
+                    }
+                    q += 1;
+                }
+                Err(_) => errors += 1,
+            }
+        }
+        kani::assert(errors == 0, "C17.base38.roundtrip.group_no_error");
+        kani::assert(q == n, "C17.base38.roundtrip.group_byte_count");
+        let j: usize = kani::any();
+        if j < n {
+            kani::assert(out[j] == b[j], "C17.base38.roundtrip.group_bytes");
+        }
+        kani::cover!(v == (1u32 << (8 * n as u32)) - 1, "largest value of the group");
+        kani::cover!(v == 0, "zero");
+    }
+
+    // TIER: quick
+    // KIND: complete (all 2^8 one-byte groups)
+    #[kani::proof]
+    #[kani::unwind(8)]
+    fn c17_base38_group1_roundtrip() {
+        group_roundtrip(1);
+    }
+
+    // TIER: thorough
+    // KIND: complete (all 2^16 two-byte groups)
+    #[kani::proof]
+    #[kani::unwind(8)]
+    fn c17_base38_group2_roundtrip() {
+        group_roundtrip(2);
+    }
+
+    /// The group decoder on ARBITRARY bytes (any of the 256 values per character) for a group of
+    /// `m` characters: never a panic or overflow; a well-formed group (2, 4 or 5 alphabet
+    /// characters) yields the low 1, 2 or 3 bytes of its base-38 value, anything else yields
+    /// no byte at all.
+    fn decode_group_contract(m: usize) {
+        let chars: [u8; 5] = kani::any();
+        let mut out = [0u8; 3];
+        let mut q = 0;
+        for r in decode_base38(&chars[..m]) {
+            if let Ok(x) = r {
+                if q < 3 {
+                    out[q] = x;
+                }
+                q += 1;
+            }
+        }
+        match (bytes_of(m), digits_value(&chars, m)) {
+            (Some(nb), Some(v)) => {
+                kani::assert(q == nb, "C17.base38.decode_group.wellformed_byte_count");
+                let j: usize = kani::any();
+                if j < nb {
+                    kani::assert(out[j] == (v >> (8 * j)) as u8, "C17.base38.decode_group.bytes_are_low_bytes_of_value");
+                }
+            }
+            _ => kani::assert(q == 0, "C17.base38.decode_group.illformed_yields_no_byte"),
+        }
+        kani::cover!(digits_value(&chars, m).is_none(), "foreign character");
+        kani::cover!(digits_value(&chars, m).is_some(), "alphabet characters only");
+    }
+
+    // TIER: quick
+    // KIND: complete (all 256^5 byte strings of a 5-character group)
+    #[kani::proof]
+    #[kani::unwind(8)]
+    fn c17_base38_decode_group5_total() {
+        decode_group_contract(5);
+    }
+
+    // TIER: quick
+    // KIND: complete (all 256^4 byte strings of a 4-character group)
+    #[kani::proof]
+    #[kani::unwind(8)]
+    fn c17_base38_decode_group4_total() {
+        decode_group_contract(4);
+    }
+
+    // TIER: quick
+    // KIND: complete (all 256^2 byte strings of a 2-character group, and the impossible group lengths 0, 1, 3)
+    #[kani::proof]
+    #[kani::unwind(8)]
+    fn c17_base38_decode_group2_and_bad_lengths_total() {
+        decode_group_contract(2);
+        decode_group_contract(0);
+        decode_group_contract(1);
+        decode_group_contract(3);
+    }
+
+    /// `encode_bits` (the entry point of the QR encoder): 8, 16 or 24 bits give 2, 4 or 5 alphabet
+    /// characters whose base-38 value, least significant digit first, is the chunk.
+    // TIER: thorough
+    // KIND: complete (all chunks of 8, 16 and 24 bits)
+    #[kani::proof]
+    #[kani::unwind(8)]
+    fn c17_base38_encode_bits() {
+        let nbytes: usize = kani::any();
+        kani::assume(nbytes >= 1 && nbytes <= 3);
+        let bits: u32 = kani::any();
+        kani::assume(bits < (1u32 << (8 * nbytes as u32)));
+        let mut chars = [b'0'; 5];
+        let mut m = 0;
+        for c in encode_bits(bits, (8 * nbytes) as u8) {
+            if m < 5 {
+                chars[m] = c as u8;
+            }
+            m += 1;
+        }
+        kani::assert(m == chars_of(nbytes), "C17.base38.encode_bits.char_count");
+        kani::assert(digits_value(&chars, chars_of(nbytes)) == Some(bits), "C17.base38.encode_bits.digits_least_significant_first");
+        kani::cover!(nbytes == 3 && bits == 0xFF_FFFF, "largest 24-bit chunk");
+        kani::cover!(nbytes == 2 && bits == 0xFFFF, "largest 16-bit chunk (last chunk of a QR payload)");
+        kani::cover!(nbytes == 1, "8-bit chunk");
+    }
+}
